@@ -7,7 +7,7 @@ _env = {"VERIF_KNOWN": os.environ["C07_KNOWN"]} if os.environ.get("C07_KNOWN") e
 
 CHECK = dict(
     level="exploration",
-    level_text="Generated-history and sampled-schedule search. (a) rapid programs of 5..60 operations on one production dnsmsg.Cloner and five dnsmsg.Constructors that allocate from its pools: decode a drawn wire image (every RR type the cloner special-cases, HTTPS/SVCB with all value kinds and 1..8 hints, OPT with cookie/EDE/subnet/NSID/padding/DAU/local options and arbitrary EDNS flag bits, plus types left to dns.Copy), clone a live or a shared never-written message, write to a message at a reflect-enumerated place (every scalar, every slice element, append inside capacity, truncate) or the way the middlewares do (set TTLs, set ECS, insert CNAME, filter records in place, edit hints/text, set reply), Dispose (clones, constructed responses and decoded messages, as the server does), build a response with a constructor. After every step every live message must equal its holder's snapshot; a clone must equal its source structurally and on the wire and reach no writable storage the source reaches; a response built on the used pools must equal the one built on unused pools. The same machine is run by 8 goroutines on one cloner under the race detector. (b) 2..8 streams of requests from 13 clients (anonymous; devices recognised by DoT server name, EDNS CPE-ID option or linked address; 4 profiles + default group with pairwise different policies, blocking modes, TTLs, logging flags) over 1..4 shared names go through the handlers of dnssvc.NewHandlers (cache type drawn per case: ECS cache, simple cache with a registry of its own, or none; real ratelimit, initial, preservice, main, preupstream and ECS-cache middlewares, real device finder, production cloner shared with the constructors and a real hashprefix filter; deterministic per-profile filter, wire-round-trip reference upstream; in one case out of three the filters come from a real filterstorage.Default - three rule lists with result caches, one shared by all profiles and matching the generated names with 3 or 5 rules of different kinds, two more that only some profiles have, per-profile custom rules with $client / $dnstype / $important / exception rules - and the profiles from a real profiledb.Default, with bursts of 4..8 streams repeating one request on one such name) and the written message is released as ServerBase does; interleaved in a drawn order by one goroutine, and one goroutine per stream (two repetitions, under -race). Every response (modulo TTLs of cached records, which may only be lower), and every query-log / billing / rule-statistics / DNSDB / error record, is compared with what the same request gets alone on a fresh stack, and with the client's own identity (debug TXT records, request info seen by every fake). Held on N cases is evidence, not proof.",
+    level_text="Generated-history and sampled-schedule search. (a) rapid programs of 5..60 operations on one production dnsmsg.Cloner and five dnsmsg.Constructors that allocate from its pools: decode a drawn wire image (every RR type the cloner special-cases, HTTPS/SVCB with all value kinds and 1..8 hints, OPT with cookie/EDE/subnet/NSID/padding/DAU/local options and arbitrary EDNS flag bits, plus types left to dns.Copy), clone a live or a shared never-written message, write to a message at a reflect-enumerated place (every scalar, every slice element, append inside capacity, truncate) or the way the middlewares do (set TTLs, set ECS, insert CNAME, filter records in place, edit hints/text, set reply), Dispose (clones, constructed responses and decoded messages, as the server does), build a response with a constructor. After every step every live message must equal its holder's snapshot; a clone must equal its source structurally and on the wire and reach no writable storage the source reaches; a response built on the used pools must equal the one built on unused pools. The same machine is run by 8 goroutines on one cloner under the race detector. (b) 2..8 streams of requests from 13 clients (anonymous; devices recognised by DoT server name, EDNS CPE-ID option or linked address; 4 profiles + default group with pairwise different policies, blocking modes, TTLs, logging flags) over 1..4 shared names go through the handlers of dnssvc.NewHandlers (cache type drawn per case: ECS cache, simple cache with a registry of its own, or none; real ratelimit, initial, preservice, main, preupstream and ECS-cache middlewares, real device finder, production cloner shared with the constructors and a real hashprefix filter; deterministic per-profile filter, wire-round-trip reference upstream; in one case out of three the filters come from a real filterstorage.Default - three rule lists with result caches, one shared by all profiles and matching the generated names with 3 or 5 rules of different kinds, two more that only some profiles have, per-profile custom rules with $client / $dnstype / $important / exception rules - and the profiles from a real profiledb.Default, with bursts of 4..8 streams repeating one request on one such name) and the written message is released as ServerBase does; interleaved in a drawn order by one goroutine, and one goroutine per stream (two repetitions, under -race). A DoT part runs a real ServerTLS on loopback, with the production cloner as its Disposer and as the cloner of the ECS cache behind the real ratelimit middleware, against 2..4 clients whose queries carry padding options filled with a marker octet of their own (interleaved or at once, 3..8 rounds): every response must be the client's own and its padding zero octets only. Every response (modulo TTLs of cached records, which may only be lower), and every query-log / billing / rule-statistics / DNSDB / error record, is compared with what the same request gets alone on a fresh stack, and with the client's own identity (debug TXT records, request info seen by every fake). Held on N cases is evidence, not proof.",
     level_note="Goroutine schedules and sync.Pool hand-outs are sampled, not owned: a failure is a real execution (printed with the full request set / program) but may not replay, silence is weak evidence. With the simple cache the OPT record of upstream-derived answers is not compared (a hit carries none; the socket server's normalisation adds it) and the upstream ignores client subnets. ServerBase's release of the written message is emulated at handler level (Dispose after the handler returns, message re-packed first); the socket servers themselves are not in the loop.",
     technique="property-based testing (rapid): stateful clone/write/release histories with snapshot, aliasing and fresh-pool differential oracles; concurrent and sequential full-stack runs vs per-request fresh-stack reference; Go race detector",
     assumptions=[
@@ -25,6 +25,8 @@ CHECK = dict(
             dict(name="sequential", run="^TestVerifC07StackSequential$", quick=3000, thorough=96000, shards_thorough=6, env=_env),
             dict(name="concurrent", run="^TestVerifC07StackConcurrent$", quick=2000, thorough=48000, shards_quick=2, shards_thorough=6, env=_env),
             dict(name="concurrent-race", run="^TestVerifC07StackConcurrent$", quick=250, thorough=8000, shards_thorough=4, race=True, env=_env),
+            dict(name="dot-padding", run="^TestVerifC07DoTPadding$", quick=150, thorough=6000, shards_thorough=4, env=_env),
+            dict(name="dot-padding-race", run="^TestVerifC07DoTPadding$", quick=30, thorough=800, shards_thorough=2, race=True, env=_env),
         ]),
         dict(name="sockets", dir="internal/dnsserver", src="C07/sockets", runs=[
             dict(name="clients", run="^TestVerifC07Sockets$", quick=40, thorough=2000, shards_thorough=4),
